@@ -58,6 +58,28 @@ static SPECS: &[PropertySpec] = &[
         assumptions: &["debatable spellings ('+n', 'n, n', bad Content-Length next to chunked or on a must-be-empty response) are don't-care", "the decision itself is a pure function of the head; the simulator supplies delivery schedule, the silent peer and the virtual clock"],
     },
     PropertySpec {
+        id: "C13",
+        scenario: props::c13::scenario,
+        level: "exploration",
+        rule: "families: no-false-timeout (complete response, reads after end-of-body, zero-length reads, think time, early drop), stall and byte-drip at a drawn phase (before status line, inside head, between head and body, inside chunk / body), slow redirect chains, peer not reading the upload; T and R drawn per run (T only, R only, both); caller + watchdog threads interleaved by the seeded scheduler at every socket/channel/spawn/drop primitive; distinct = plan shape x schedule signature; all runs non-trivial",
+        quick_runs: 6000,
+        thorough_runs: 400_000,
+        real_components: REAL,
+        stubbed_components: STUB,
+        assumptions: &["shutdown(Both) on a clone wakes a blocked reader with Ok(0) and a blocked writer with EPIPE (Linux)", "time spent inside connect itself is added to the bound (documented: timeout applies after the TCP connection is established)", "plain http only in this family; tunnelled variant covered by C12/C14 worlds"],
+    },
+    PropertySpec {
+        id: "C17",
+        scenario: props::c17::scenario,
+        level: "exploration",
+        rule: "resolver output: 0..3 IPv6 and 0..3 IPv4 addresses in a drawn interleaving; each address accepts / refuses after a latency around 0, just below/above the 200 ms race interval and around the connect timeout, or black-holes; connect timeout and overall deadline (none, zero, shorter than the race, long) drawn; racing threads interleaved by the seeded scheduler; distinct = (address behaviour list, connect timeout, deadline) x schedule signature; non-trivial = at least two addresses (the racing path)",
+        quick_runs: 6000,
+        thorough_runs: 300_000,
+        real_components: REAL,
+        stubbed_components: STUB,
+        assumptions: &["attempts that would accept only after a deadline-clamped expiry are a don't-care zone", "losers of the race may live until their own connect timeout"],
+    },
+    PropertySpec {
         id: "C19",
         scenario: props::c19::scenario,
         level: "exploration",
